@@ -177,6 +177,8 @@ def prepare_tree(dst, spec, misses):
             n = 1 if new != text else 0
         else:
             new, n = re.subn(rd["pattern"], rd["replacement"], text, count=rd.get("count", 0), flags=re.M)
+        if n == 0 and rd.get("optional"):
+            continue  # a guard pattern (e.g. ambient randomness) that the current sources do not contain
         if n == 0:
             misses.append(f"{rd['file']}: pattern {rd['pattern']!r} not found")
             if rd.get("required"):
